@@ -310,6 +310,7 @@ func jobsRun(args []string) int {
 	phase("overlap", func() { jbOverlap(r, bg, rng) })
 	phase("cancel", func() { jbCancel(r, *skipShell) })
 	phase("contexts", func() { jbContexts(r) })
+	phase("ended-context", func() { jbEnded(r) })
 	phase("leak", func() { jbLeak(r, bg, *leakN, *skipShell) })
 
 	writeLines(*out+"/ops.txt", r.ops)
@@ -1150,6 +1151,22 @@ func jbCancel(r *jbRun, skipShell bool) {
 	cancel()
 	r.samples = append(r.samples, map[string]any{"cancel_shell_took_ms": d.Milliseconds()})
 
+	// a simple command that does not die from an interrupt: cancellation must ABORT it, not ask it politely
+	jbCancelStubborn(r, "cancelled", func() (context.Context, context.CancelFunc, func()) {
+		c, k := context.WithCancel(context.Background())
+		return c, k, k
+	})
+	jbCancelStubborn(r, "timed out (deadline 700 ms after the start)", func() (context.Context, context.CancelFunc, func()) {
+		c, k := context.WithTimeout(context.Background(), 700*time.Millisecond)
+		return c, k, func() {
+			select {
+			case <-c.Done():
+			case <-time.After(5 * time.Second):
+				k()
+			}
+		}
+	})
+
 	// observation only (outside the property, which speaks of a simple command): a compound command leaves a grandchild
 	// that keeps the output pipes open, so Execute returns only when that grandchild exits
 	ctx, cancel = context.WithCancel(context.Background())
@@ -1160,6 +1177,81 @@ func jbCancel(r *jbRun, skipShell bool) {
 	if ok && d > 800*time.Millisecond {
 		r.notes = append(r.notes, "cancelling the context of the compound command `sleep 1; :` kills only the shell: Execute returned after "+
 			"the orphaned `sleep` exited (no cmd.WaitDelay / process group kill); simple commands are exec'ed by the shell and abort promptly")
+	}
+}
+
+// jbCancelStubborn: property clause "cancelling the execution context aborts a running … simple shell command". The command is
+// `trap '' INT; exec sleep 4`: the shell sets SIGINT to "ignore" and then REPLACES itself by sleep (exec), so one single process
+// without children runs — a simple command — which, like a process started through a nohup-style wrapper or as a background job of
+// a non-interactive shell, ignores an interrupt. The context ends only after the command has reported (through a marker file it creates before the
+// exec) that the trap is installed. One-sided judgment with a generous bound: Execute must return within jbAbortDeadline (2 s) after
+// the context ended; the command would run 4 s on its own. mk makes the context and the function that ends it / waits for its end.
+func jbCancelStubborn(r *jbRun, how string, mk func() (context.Context, context.CancelFunc, func())) {
+	dir, err := os.MkdirTemp("", "qh-stubborn-")
+	if err != nil {
+		r.notes = append(r.notes, "stubborn-command case skipped: "+err.Error())
+		return
+	}
+	defer os.RemoveAll(dir)
+	ready := filepath.Join(dir, "ready")
+	cmdText := fmt.Sprintf("trap '' INT; : > '%s'; exec sleep 4", ready)
+	sj := job.NewShellJob(cmdText)
+	var ctx context.Context
+	var cancel context.CancelFunc
+	var end func()
+	var ended atomic.Int64 // UnixNano of the moment the context ended (0 = not yet)
+	ctx, cancel, end = mk()
+	defer cancel()
+	type res struct {
+		err error
+		at  time.Time
+	}
+	done := make(chan res, 1)
+	t0 := time.Now()
+	go func() { e := sj.Execute(ctx); done <- res{e, time.Now()} }()
+	// wait until the trap is installed (deadline 5 s; a shell that did not even get that far in 5 s: nothing to judge)
+	isReady := false
+	for wait := time.Now().Add(5 * time.Second); time.Now().Before(wait); time.Sleep(5 * time.Millisecond) {
+		if _, err := os.Stat(ready); err == nil {
+			isReady = true
+			break
+		}
+		if len(done) > 0 {
+			break
+		}
+	}
+	if !isReady {
+		cancel()
+		select {
+		case <-done:
+		case <-time.After(10 * time.Second):
+		}
+		r.notes = append(r.notes, "stubborn-command case ("+how+"): the command did not report readiness within 5 s; not judged")
+		return
+	}
+	time.Sleep(100 * time.Millisecond) // let the exec happen (not needed for the judgment: the ignored signal disposition survives exec)
+	end()
+	ended.Store(time.Now().UnixNano())
+	var got res
+	select {
+	case got = <-done:
+	case <-time.After(jbAbortDeadline + 6*time.Second):
+		r.flag("ShellJob `%s`, context %s %v after the start while the command was running: Execute had not returned 8 s later (cancelling the execution context must abort a running simple command)",
+			cmdText, how, time.Duration(ended.Load()-t0.UnixNano()).Round(time.Millisecond))
+		return
+	}
+	took := got.at.Sub(time.Unix(0, ended.Load()))
+	r.count("cancel", "shell-ignoring-interrupt-"+how)
+	r.samples = append(r.samples, map[string]any{"cancel_stubborn_shell_" + how + "_took_ms": took.Milliseconds()})
+	if took > jbAbortDeadline {
+		r.flag("ShellJob `%s` (a single process that ignores SIGINT), context %s while the command was running: Execute returned only %v after the context ended, i.e. the command "+
+			"was not aborted (bound %v; the command runs 4 s when left alone); Execute returned %v, status=%s exit=%d",
+			cmdText, how, took.Round(time.Millisecond), jbAbortDeadline, got.err, jbStatus(sj.JobStatus()), sj.ExitCode())
+		return
+	}
+	r.rec(fmt.Sprintf("jobs shell %d %s", sj.ExitCode(), jbB01(got.err != nil)), jbStatus(sj.JobStatus()))
+	if got.err == nil || sj.JobStatus() != job.StatusFailure || sj.ExitCode() == 0 {
+		r.flag("ShellJob `%s` aborted by its context (%s): Execute returned %v, status=%s exit=%d (an aborted command is a failed execution)", cmdText, how, got.err, jbStatus(sj.JobStatus()), sj.ExitCode())
 	}
 }
 
@@ -1217,6 +1309,149 @@ func jbContexts(r *jbRun) {
 	r.count("contexts", "function")
 	if len(seen) != 2 || seen[0] != nil || seen[1] != nil {
 		r.flag("FunctionJob executed under a context that was then cancelled, and again under a live one: the function saw %v", seen)
+	}
+}
+
+// ---------------------------------------------------------------------------------------------- FunctionJob under a context that has ended
+
+// jbEndedCase: property clauses "Execute returns the underlying error, the status is OK exactly when the function returned nil, …
+// result … of that execution" for an execution whose CONTEXT has ended by the time the function returns. The function does not look
+// at its context (it finishes its work anyway): what it returned is the outcome — a cancelled or timed-out context is not an error
+// of the function, and an error of the function is not replaced by the context's. Everything is synchronised with channels.
+//   modes "… before the call": the context is already over when Execute is called;
+//   modes "… during the run": it ends while the function is running (the function is held until ctx.Done() is closed, then returns).
+// first: run one execution under a live context before (same job object) so that a stale outcome would show.
+func jbEndedCase[R comparable](r *jbRun, kind, mode string, first bool, prev, result R, ferr error) {
+	var zero R
+	var ctx context.Context
+	var cancel context.CancelFunc
+	during := false
+	switch mode {
+	case "had been cancelled before the call":
+		ctx, cancel = context.WithCancel(context.Background())
+		cancel()
+	case "was past its deadline before the call":
+		ctx, cancel = context.WithDeadline(context.Background(), time.Now().Add(-time.Second))
+	case "was cancelled during the run":
+		ctx, cancel = context.WithCancel(context.Background())
+		during = true
+	case "reached its deadline during the run":
+		ctx, cancel = context.WithTimeout(context.Background(), 15*time.Millisecond)
+		during = true
+	}
+	defer cancel()
+	entered := make(chan struct{}, 4)
+	release := make(chan struct{})
+	var calls int32
+	var cur atomic.Value // what the next call returns
+	type outc struct {
+		res R
+		err error
+	}
+	cur.Store(outc{prev, nil})
+	hold := false
+	var ctxErrAtReturn atomic.Value
+	fj := job.NewFunctionJob(func(c context.Context) (R, error) {
+		atomic.AddInt32(&calls, 1)
+		if hold {
+			entered <- struct{}{}
+			select {
+			case <-release:
+			case <-time.After(jbOvDeadline):
+			}
+		}
+		if e := c.Err(); e != nil {
+			ctxErrAtReturn.Store(e)
+		}
+		o := cur.Load().(outc)
+		return o.res, o.err
+	})
+	hist := ""
+	if first {
+		if e := fj.Execute(context.Background()); e != nil || fj.JobStatus() != job.StatusOK || fj.Result() != prev {
+			r.flag("FunctionJob[%s] function returned (%v, nil) under a live context: Execute returned %v, status=%s result=%v", kind, prev, e, jbStatus(fj.JobStatus()), fj.Result())
+			return
+		}
+		hist = fmt.Sprintf("second execution of one job (the first, under a live context, returned (%v, nil)); ", prev)
+		atomic.StoreInt32(&calls, 0)
+	}
+	cur.Store(outc{result, ferr})
+	var ret error
+	if !during {
+		ret = fj.Execute(ctx)
+	} else {
+		hold = true
+		done := make(chan error, 1)
+		go func() { done <- fj.Execute(ctx) }()
+		select {
+		case <-entered:
+		case <-time.After(jbOvDeadline):
+			close(release)
+			r.notes = append(r.notes, "ended-context phase: the function was not entered within the deadline; not judged")
+			return
+		}
+		if mode == "was cancelled during the run" {
+			cancel() // the other mode waits for the 15 ms deadline
+		}
+		select {
+		case <-ctx.Done():
+		case <-time.After(jbOvDeadline):
+			close(release)
+			<-done
+			r.notes = append(r.notes, "ended-context phase: the context did not end within the deadline; not judged")
+			return
+		}
+		close(release) // the context HAS ended; only now may the function return
+		select {
+		case ret = <-done:
+		case <-time.After(jbOvDeadline):
+			r.flag("FunctionJob[%s], the execution context %s: Execute did not return within %v after its function returned", kind, mode, jbOvDeadline)
+			return
+		}
+	}
+	ce, _ := ctxErrAtReturn.Load().(error)
+	if ce == nil { // cannot happen by construction; then there is nothing this case wants to judge
+		r.notes = append(r.notes, "ended-context phase: the context was still live when the function returned ("+mode+")")
+		return
+	}
+	st, res, e := fj.JobStatus(), fj.Result(), fj.Error()
+	r.rec("jobs function "+jbB01(ferr != nil), jbStatus(st))
+	r.count("function_ended_context", mode+":"+map[bool]string{true: "err", false: "nil"}[ferr != nil])
+	what := fmt.Sprintf("FunctionJob[%s] %sthe execution context %s (ctx.Err() = %v when the function returned), the function does not watch its context and returned (%v, %v):",
+		kind, hist, mode, ce, result, ferr)
+	if n := atomic.LoadInt32(&calls); n != 1 {
+		r.flag("%s the function was called %d times by one Execute", what, n)
+	}
+	if ret != ferr {
+		r.flag("%s Execute returned %v, not what the function returned (Execute returns the underlying error)", what, ret)
+	}
+	if e != ferr {
+		r.flag("%s Error() = %v, want %v", what, e, ferr)
+	}
+	if (st == job.StatusOK) != (ferr == nil) || st == job.StatusNA {
+		r.flag("%s JobStatus() = %s (the status is OK exactly when the function returned nil)", what, jbStatus(st))
+	}
+	if ferr == nil && res != result {
+		r.flag("%s Result() = %v, want %v (the result of that execution)", what, res, result)
+	}
+	if ferr != nil && res != zero {
+		r.flag("%s Result() = %v after a failed execution, want the zero value", what, res)
+	}
+}
+
+func jbEnded(r *jbRun) {
+	own := errors.New("the function's own error")
+	wrapped := fmt.Errorf("step 3 failed: %w", context.Canceled) // the function's own error, which happens to wrap a context error
+	modes := []string{"had been cancelled before the call", "was past its deadline before the call", "was cancelled during the run", "reached its deadline during the run"}
+	for _, mode := range modes {
+		for _, ferr := range []error{nil, own, wrapped} {
+			for _, first := range []bool{false, true} {
+				jbEndedCase(r, "int", mode, first, 7, 42, ferr)
+				jbEndedCase(r, "string", mode, first, "earlier", "done", ferr)
+			}
+			jbEndedCase(r, "int", mode, false, 7, 0, ferr) // zero result with nil error: only status / error tell
+			jbEndedCase(r, "ptr", mode, true, &jbPoint{0, 0}, &jbPoint{1, 2}, ferr)
+		}
 	}
 }
 
